@@ -79,7 +79,11 @@ def c04(tier):
     run = P.Run("C04", tier, ["C04_"])
     s = run.seed
     defs = F.curated() + F.random_family(1300 + s, sizes(tier, 40, 400), nmax=4)
-    run.add_jobs(jobs_for(defs, {"probe_reqs": True, "pause": 1, "max_nodes": sizes(tier, 2500, 8000)}, s))
+    run.add_jobs(jobs_for(defs, {"probe_reqs": True, "pause": 1, "cancel": 1, "max_nodes": sizes(tier, 2500, 8000)}, s))
+    # lazy provider: offered tasks may still be unstarted when the workflow terminates
+    run.add_jobs(jobs_for(F.curated(), {"lazy": True, "max_nodes": sizes(tier, 1500, 6000)}, s))
+    lz = F.random_family(1350 + s, sizes(tier, 40, 400), nmax=4)
+    run.add_jobs(jobs_for(lz, {"lazy": True, "cancel": 1, "sample": sizes(tier, 3, 4), "max_nodes": sizes(tier, 600, 3000)}, s))
     return run.finish("model_checking",
                       "every reachable state x every status request (probe on a copy) + all late-report suffixes",
                       ASSUME_COMMON)
@@ -91,7 +95,9 @@ def c07(tier):
     s = run.seed
     defs = F.curated() + F.random_family(1400 + s, sizes(tier, 120, 1200), nmax=sizes(tier, 4, 5), fates_f=0.8)
     defs = [d for d in defs if any(t["join"] != 0 for t in d["tasks"].values())]
+    run.add_mc(defs[:sizes(tier, 30, 300)], ["C07"], max_pause=1, replay=(tier != "quick"))
     run.add_jobs(jobs_for(defs, {"max_nodes": sizes(tier, 2000, 8000)}, s))
+    run.add_jobs(jobs_for(defs[:sizes(tier, 25, 400)], {"pause": 1, "cancel": 1, "max_nodes": sizes(tier, 1200, 5000)}, s))
     return run.finish("model_checking",
                       "definitions with join: all / join: N x outcome assignments x all arrival orders relative "
                       "to the join's own start and completion",
